@@ -518,7 +518,7 @@ func c10filters(c *ctx) {
 	}
 	want := map[string][2]string{
 		"(*store.VersionedStore).newVersionedIterator": {"0", "($0.version + 1)"},
-		"(*store.Store).pruneVersionWindow":             {"$4", "($5 + 1)"},
+		"(*store.Store).pruneVersionWindow":            {"$4", "($5 + 1)"},
 	}
 	seen := 0
 	for _, s := range c.p.callSitesOf(helper) {
